@@ -8,7 +8,7 @@ from .cgt import trace_family, cgt_family, law_family, report_family, calendar_f
 
 
 def c01(tier, seed):
-    return combine(fam_list(tier, ['core_q', 'edge_q', 'frac_q', 'split_q', 'split5_q', 'two_split_q', 'matcher_q'], ['core_t', 'split_t', 'two_q', 'sim_t', 'matcher_t']) + [trace_family(tier, seed)], 'multi_leg_disposals',
+    return combine(fam_list(tier, ['core_q', 'edge_q', 'frac_q', 'split_q', 'split5_q', 'two_q', 'two_split_q', 'matcher_q'], ['core_t', 'split_t', 'sim_t', 'matcher_t']) + [trace_family(tier, seed)], 'multi_leg_disposals',
                    'every cell ledger of the family (TLC-enumerated) x base dates; non-trivial = ledgers with a disposal '
                    'identified by two or more legs')
 
@@ -71,7 +71,7 @@ def reports(tier, quick, thorough):
 
 
 def c04(tier, seed):
-    return combine(reports(tier, ['report_q', 'report_missing_q'], ['report_t', 'report_one_t']) + [cli_family(tier)], ['reports', 'missing_exemption_refused', 'layering_configs'],
+    return combine(reports(tier, ['report_q', 'report_missing_q'], ['report_t', 'report_one_t']) + [cli_family(tier), fx_family(tier)], ['reports', 'missing_exemption_refused', 'layering_configs', 'multi_foreign_field'],
                    'two-security cell ledgers placed on real dates around 5/6 April with cash dividends and a small exemption '
                    'table (one family leaves a needed year unconfigured); TLC checks the report identities on the '
                    'specification and prints the per-year totals; the implementation\'s TaxReport must show the same '
